@@ -225,10 +225,12 @@ fn run_c08(c: &MCase) -> Outcome {
             o.fail("pieces-do-not-cover-read", format!("read {}: pieces hold {} k-mers, read has {}", ascii(r), covered, r.len() - k + 1));
         }
     }
-    // the deprecated simple_scan must assign the same intervals and the same bucket ids as msp_sequence
+    // the deprecated simple_scan: same intervals as msp_sequence, and ITS bucket ids must also be a pure, strand-symmetric
+    // function of the k-mer (they need not be the same numbers as msp_sequence's)
     if p <= 8 {
         let np = 1usize << (2 * p);
         let full_perm: Vec<usize> = perm.clone().unwrap_or_else(|| (0..np).collect());
+        let mut ss_bucket_of: BTreeMap<S, BTreeSet<u32>> = BTreeMap::new();
         for r in reads.iter().filter(|r| r.len() >= k) {
             #[allow(deprecated)]
             let ss: Vec<(usize, usize, u32)> = with_p!(p, P => simple_scan::<_, P>(k, &DnaSlice(r), &full_perm, c.mrc).into_iter().map(|m| {
@@ -240,11 +242,22 @@ fn run_c08(c: &MCase) -> Outcome {
             let ms: Vec<(u32, u8, S)> = with_p!(p, P => pieces::<P, DnaBytes>(k, r, perm.as_deref(), c.mrc));
             o.transitions += 1;
             let mut start = 0usize;
-            let chain: Vec<(usize, usize, u32)> = ms.iter().map(|(b, _, piece)| { let x = (start, piece.len(), *b); start = start + piece.len() - (k - 1); x }).collect();
-            if ss != chain {
-                o.fail("simple-scan-bucket-differs", format!("read {} (p={} k={} perm={} rc={}): simple_scan gives (start, len, bucket) {:?}, msp_sequence {:?}", ascii(r), p, k, c.perm, c.mrc, ss, chain));
+            let chain: Vec<(usize, usize)> = ms.iter().map(|(_, _, piece)| { let x = (start, piece.len()); start = start + piece.len() - (k - 1); x }).collect();
+            if ss.iter().map(|x| (x.0, x.1)).collect::<Vec<_>>() != chain {
+                o.fail("simple-scan-intervals-differ", format!("read {} (p={} k={} perm={} rc={}): simple_scan gives (start, len, bucket) {:?}, msp_sequence intervals {:?}", ascii(r), p, k, c.perm, c.mrc, ss, chain));
                 break;
             }
+            for (st, l, b) in &ss {
+                if st + l <= r.len() && *l >= k {
+                    for w in windows(&r[*st..st + l], k) {
+                        let key = if c.mrc { canon(&w, false).0 } else { w };
+                        ss_bucket_of.entry(key).or_default().insert(*b);
+                    }
+                }
+            }
+        }
+        if let Some((key, bs)) = ss_bucket_of.iter().find(|(_, bs)| bs.len() != 1) {
+            o.fail("simple-scan-bucket-not-pure", format!("simple_scan (p={} k={} perm={} rc={}): k-mer {} is reported under buckets {:?}", p, k, c.perm, c.mrc, ascii(key), bs));
         }
     }
     for (key, bs) in &bucket_of {
@@ -455,7 +468,7 @@ fn plan_c08(quick: bool, rep: &mut Report) {
     for (sig, det, case) in fails.into_iter().take(10) {
         rep.violation(vcommon::report::Violation { signature: sig, case, detail: det });
     }
-    rep.rule = "msp_sequence: P in {Kmer2, Kmer3, Kmer4} x k = p+1..p+3(4) x EVERY read of length k..Lmax (plus each read's reverse complement as a second read when rc mode is on) and every ordered pair of short reads x permutations {default, reversed, rotation, affine, 2 LCG} x containers {DnaBytes, DnaString, Lmer1, Lmer2, Lmer3} x rc mode on/off (star design around the default); oracle: one bucket per (canonical) k-mer over the whole read set, pieces are the chained exact substrings overlapping by k-1, extensions are the flanking bases, the deprecated simple_scan reports the same intervals and bucket ids; plus structured reads for P in {5, 6, 8, 10}, k up to 64, including low-complexity reads and every k-mer also as a read of its own".into();
+    rep.rule = "msp_sequence: P in {Kmer2, Kmer3, Kmer4} x k = p+1..p+3(4) x EVERY read of length k..Lmax (plus each read's reverse complement as a second read when rc mode is on) and every ordered pair of short reads x permutations {default, reversed, rotation, affine, 2 LCG} x containers {DnaBytes, DnaString, Lmer1, Lmer2, Lmer3} x rc mode on/off (star design around the default); oracle: one bucket per (canonical) k-mer over the whole read set, pieces are the chained exact substrings overlapping by k-1, extensions are the flanking bases, the deprecated simple_scan reports the same intervals and its own bucket ids are a pure strand-symmetric function of the k-mer; plus structured reads for P in {5, 6, 8, 10}, k up to 64, including low-complexity reads and every k-mer also as a read of its own".into();
     rep.floor("all-reads/P2:two_or_more_buckets", 1);
     rep.floor("all-reads/P3:palindromic_kmer", 1);
 }
